@@ -48,6 +48,30 @@ def call(c, t, shapeform="tuple"):
         shape = list(shape)
     elif shapeform == "npints":
         shape = tuple(np.int64(x) for x in shape)
+    cf = c.get("callform")
+    if cf in ("kw", "pos"):
+        # every argument by its published NAME / every argument by its published POSITION (names and order of the pinned tree)
+        kw = cf == "kw"
+
+        def F(fn, names, *vals):
+            return fn(**dict(zip(names, vals))) if kw else fn(*vals)
+        if op == "unfold":
+            out = F(tl.unfold, ("tensor", "mode"), t, c["mode"])
+            return out, F(tl.fold, ("unfolded_tensor", "mode", "shape"), out, c["mode"], shape)
+        if op == "vec":
+            out = F(tl.tensor_to_vec, ("tensor",), t)
+            return out, F(tl.vec_to_tensor, ("vec", "shape"), out, shape)
+        if op == "partial_unfold" and not c["ravel"]:
+            out = F(tl.partial_unfold, ("tensor", "mode", "skip_begin", "skip_end", "ravel_tensors"), t, c["mode"], c["sb"], c["se"], c["ravel"])
+            return out, F(tl.partial_fold, ("unfolded", "mode", "shape", "skip_begin", "skip_end"), out, c["mode"], shape, c["sb"], c["se"])
+        if op == "partial_vec":
+            out = F(tl.partial_tensor_to_vec, ("tensor", "skip_begin", "skip_end"), t, c["sb"], c["se"])
+            return out, F(tl.partial_vec_to_tensor, ("matrix", "shape", "skip_begin", "skip_end"), out, shape, c["sb"], c["se"])
+        if op == "matricize" and c["colsgiven"]:
+            rows, cols = list(c["rows"]), list(c["cols"])
+            out = F(matricize, ("tensor", "row_modes", "column_modes"), t, rows, cols)
+            perm = rows + cols
+            return out, np.transpose(np.reshape(out, [shape[k] for k in perm]), np.argsort(perm))
     if op == "unfold":
         out = tl.unfold(t, c["mode"])
         back = tl.fold(out, c["mode"], shape)
@@ -125,6 +149,8 @@ def execute(case):
         # argument forms: NumPy-integer modes / skips / row-column lists; shape as list or tuple of NumPy ints
         runs["f64_" + form] = one_run(argform(c, form), label(shape, "float64"), "float64",
                                       {"npint64": "npints", "npint32": "list"}.get(form, "tuple"))
+    if case.get("callform"):
+        runs["f64_" + case["callform"]] = one_run(dict(c, callform=case["callform"]), label(shape, "float64"), "float64")
     if case.get("bool"):
         # bool: superpose the one-hot patterns: sum_p p * f(onehot_p) recovers where entry p went
         acc_out = acc_back = None
@@ -163,7 +189,7 @@ def run(chk, opts):
         # (thorough: one rotating form per configuration -- all four on every one of ~800 k configurations exhausts memory)
         forms = sorted(INTFORMS) if (full and not thorough) else [sorted(INTFORMS)[k % len(INTFORMS)]]
         cases.append({"id": "C01/%06d" % k, "cfg": c, "dtypes": sorted(set(dts)), "layouts": full or (high and k % 3 == 0), "intforms": forms,
-                      "bool": full and 0 < int(np.prod(c["shape"])) <= 36})
+                      "bool": full and 0 < int(np.prod(c["shape"])) <= 36, "callform": None if thorough and k % 3 else ["kw", "pos"][k % 2]})
     chk.add_cases(cases)
     chk.rule = ("all %d configurations of TensorIndex.AllConfigs (exported from TLC's design run: every shape with order<=%s, every op/mode/"
                 "skip/ravel/row-column ordering, plus the all-twos tensors of order 9+), each on the label tensor in several dtypes, layouts and "
